@@ -260,10 +260,14 @@ class Module:
                 if v is not None:
                     self.consts[node.targets[0].id] = v
             elif isinstance(node, ast.ClassDef):
+                # members of an `Enum` / `Flag` class are objects, not integers (`Fmt.A == 3` is False): never folded;
+                # `IntEnum` / `IntFlag` members are integers
+                bases = [ast.unparse(b).split(".")[-1] for b in node.bases]
+                plain_enum = any(b in ("Enum", "Flag") for b in bases)
                 for st in node.body:
                     if isinstance(st, ast.FunctionDef):
                         self.funcs[node.name + "." + st.name] = st      # methods: `self` must be a declared record
-                    if isinstance(st, ast.Assign) and len(st.targets) == 1 and isinstance(st.targets[0], ast.Name):
+                    if not plain_enum and isinstance(st, ast.Assign) and len(st.targets) == 1 and isinstance(st.targets[0], ast.Name):
                         v = self._const_value(st.value, node.name)
                         if v is not None:
                             self.consts[node.name + "." + st.targets[0].id] = v
@@ -651,7 +655,10 @@ class FnTranslator:
             if sh == U:
                 if self.ret_shape is None:
                     self.pending_none = True
-                    return ("pure", "none")
+                if self.loop_stack:
+                    if self.mut_params:
+                        self.fail(node or self.node, "`return` inside a loop of a function that mutates a list parameter")
+                    return ("pure", "(Step.ret none)")
                 return ("pure", "none")
             sh = O(sh)
             expr = f"(some {expr})"
@@ -789,7 +796,9 @@ class FnTranslator:
             return self.opaque_assign(st, value, targets, env, rest)
         # opaque target: `name = <anything>` where the configuration declares `name` opaque (a value computed
         # with floats); the name becomes a parameter
-        if len(targets) == 1 and isinstance(targets[0], ast.Name) and targets[0].id in self.opaque_targets:
+        if len(targets) == 1 and isinstance(targets[0], ast.Name) and targets[0].id in self.opaque_targets \
+                and not isinstance(st, ast.AugAssign):
+            # (an augmented assignment `name op= e` computes with the current value: translated as arithmetic)
             if st not in self.node.body:
                 self.fail(st, "opaque assignment outside the top level of the function body")
             tg = targets[0]
@@ -854,7 +863,26 @@ class FnTranslator:
         return rest(env)
 
     def subscript_store(self, st, tg, value, env, rest):
-        self.fail(st, "assignment to a subscript")
+        """`l[i] = v` on a local list of numbers (not a parameter: the caller's list would change too)"""
+        if isinstance(tg.slice, ast.Slice):
+            self.fail(st, "assignment to a slice")
+        if not isinstance(tg.value, ast.Name) or env.d.get(tg.value.id) is None or env.d[tg.value.id][1][0] != "L":
+            self.fail(st, "assignment to a subscript of something that is not a local list")
+        nm = tg.value.id
+        if any(pn == nm for pn, _ln, _sh in self.param_list) and nm not in self.mut_params:
+            self.fail(st, "assignment to a subscript of a list parameter")
+        ln, sh = env.d[nm]
+        # Python evaluates the right-hand side first, then the subscript expression
+        pre, val = self.expr(value, env)
+        p2, idx = self.expr(tg.slice, env)
+        if idx[2] != N:
+            self.fail(st, "list index is not a number")
+        if val[2] != sh[1]:
+            self.fail(st, f"store of a {shape_str(val[2])} into a list of {shape_str(sh[1])}")
+        ln2 = self.fresh(nm)
+        pre = pre + p2 + [("let", ln2, f"pySetItem {ln} {idx[1]} {val[1]}", None)]
+        env.d[nm] = (ln2, sh)
+        return self.wrap_pre(pre, rest(env))
 
     def expr_stmt(self, st, env, rest):
         v = st.value
@@ -1576,6 +1604,14 @@ class FnTranslator:
 
     def call(self, node, env, stmt=False):
         fname = ast.unparse(node.func)
+        # `l.copy()` of a list value: lists are values here (no aliasing is modelled: every store rebinds the name)
+        if isinstance(node.func, ast.Attribute) and node.func.attr == "copy" and not node.args and not node.keywords:
+            try:
+                pre, v = self.expr(node.func.value, env)
+            except Untranslatable:
+                v = None
+            if v is not None and v[2][0] == "L":
+                return pre, v
         # zero-argument method of a record: an attribute path (`fm.data_type.size_in_bytes()`)
         rp = self.record_path(node, env)
         if rp is not None:
@@ -1663,6 +1699,12 @@ class FnTranslator:
                 if modname in self.m.registry:
                     return self.call_fn(node, self.m.registry[modname], orig, env, stmt)
             self.fail(node, f"call of `{f}` (not a translated function or supported builtin)")
+        if fname == "math.ceil" and self.m.mod_aliases.get("math") == "math" and "math" not in env.d \
+                and len(node.args) == 1 and not node.keywords:
+            # ceiling of an integer-shaped value (a float operand never has the shape `Num`)
+            pre, (a,) = self.args_of(node, env, 1)
+            r = self.tmp()
+            return pre + [("let", r, f"Num.ceil {self.as_num(node.args[0], a)}", None)], ("atom", r, N)
         if isinstance(node.func, ast.Attribute) and isinstance(node.func.value, ast.Name) \
                 and node.func.value.id not in env.d and (node.func.value.id + "." + node.func.attr) in self.m.funcs:
             # `Class.method(..)` of this module: only static / class methods (no implicit `self`)
